@@ -223,7 +223,9 @@ def rule_kkt(F, R):
         if s["k"] == "if":
             cond = pp(s["c"][s["r"].index("cond")])
             if "m_Q.size()" in cond:
-                stmts.append(s["c"][s["r"].index("else")])
+                # the quadratic branch is the one that mentions Q(), whichever way the test is written
+                th, el = s["c"][s["r"].index("then")], s["c"][s["r"].index("else")]
+                stmts.append(th if "Q()" in pp(th) else el)
             else:
                 stmts.append(s["c"][s["r"].index("then")])
         elif s["k"] == "declstmt":
@@ -264,7 +266,8 @@ def rule_kkt(F, R):
     # program_t::solve: K = Q - hessvar, rhs = (-rdual, -rprim)
     sv = solve[0]
     txt = {kalg.designator(assignment(s)[0]): pp(assignment(s)[1]) for s in sv.nodes() if assignment(s)}
-    oksys = "(Q() - hessvar)" in txt.values() and "(-rdual)" in txt.values() and "(-rprim)" in txt.values()
+    allv = {pp(assignment(s_)[1]) for s_ in sv.nodes() if assignment(s_)}
+    oksys = "(Q() - hessvar)" in allv and "(-rdual)" in allv and "(-rprim)" in allv
     R.check(oksys, "R-C04-6", "linear system assembly", sv.loc(), "K = Q - H, right-hand side (-rdual', -rprim)", "program_t::solve assembles %s" % txt)
     dx, dv, du = sp.symbols("dx dv du", real=True)
     sol = sp.solve([(Q - hess) * dx + A * dv + rdual_arg, A * dx + rprim_arg], [dx, dv], dict=True)
@@ -347,6 +350,55 @@ def rule_rows_before_reduction(F, R):
                          "interpretable" % (pp(site)[:60], len(cmpA), len(cmpb)))
 
 
+def rule_stated_rows(F, R):
+    """R-C04-9: program::stack(A, b, G, h, constraints...) makes the stored system exactly the stated one: before the rows are filled, each of the
+    four buffers is resized *unconditionally* to the counts make_size() computed for this statement (A: eqs x dims, b: eqs, G: ineqs x dims,
+    h: ineqs). A resize that happens only when the buffer is too small leaves the rows of an earlier, larger statement in force."""
+    fs = [f for f in F.functions.values() if f.qn == "nano::program::stack" and f.relfile == "include/nano/program/stack.h" and f.body is not None and len(f.params) >= 4]
+    seen = set()
+    n = 0
+    for f in sorted(fs, key=lambda f: f.key):
+        ms = [c for c in f.calls(lambda c: callee(c) == "nano::program::detail::make_size")]
+        fill = [c for c in f.calls(lambda c: callee(c) == "nano::program::detail::stack")]
+        if len(ms) != 1 or len(fill) != 1:
+            R.incomplete("R-C04-9", "stack@%s" % f.key[-40:], f.loc(), "expected one make_size and one detail::stack call")
+            continue
+        eqs, dims, ineqs = (ref_decl(a_) for a_ in args(ms[0])[:3])
+        want = {0: [eqs, dims], 1: [eqs], 2: [ineqs, dims], 3: [ineqs]}
+        bad = []
+        for k in range(4):
+            pd = f.params[k]["d"]
+
+            def uncond(g, c):
+                return not any(a_["k"] in ("if", "for", "while", "do", "cond", "switch") for a_ in g.ancestors(c))
+            rs = [c for c in f.calls(lambda c: callee(c).split("::")[-1] == "resize" and c.get("ck") == "mem" and ref_decl(obj(c)) == pd)]
+            good = [c for c in rs if uncond(f, c) and c["l"] <= fill[0]["l"] and [ref_decl(a_) for a_ in args(c)] == want[k]]
+            if good:
+                continue
+            # delegated?
+            why = "no unconditional %s.resize(%s) before the rows are filled" % (f.params[k]["n"], ", ".join("eqs" if w == eqs else "ineqs" if w == ineqs else "dims" for w in want[k]))
+            for c in f.calls():
+                if c is fill[0] or c is ms[0] or c["l"] > fill[0]["l"]:
+                    continue
+                for j, a_ in enumerate(args(c)):
+                    if ref_decl(a_) == pd and c.get("pk", "")[j:j + 1] in ("r", "p"):
+                        gs = [g for g in F.functions.values() if g.qn == callee(c) and g.body is not None and len(g.params) == len(args(c))]
+                        for g in gs[:1]:
+                            inner = [q for q in g.calls(lambda q: callee(q).split("::")[-1] == "resize" and q.get("ck") == "mem" and ref_decl(obj(q)) == g.params[j]["d"])]
+                            conds = [pp(a2["c"][a2["r"].index("cond")])[:70] for q in inner for a2 in g.ancestors(q) if a2["k"] == "if"]
+                            if inner and conds:
+                                why = "`%s` resizes %s only under `%s`: a program re-stated in place with fewer constraints keeps the trailing rows of the previous statement " \
+                                      "as live constraints (the solver then solves a different program and can report it converged)" % (pp(c)[:50], f.params[k]["n"], conds[0])
+            bad.append(why)
+        sig = (f.line, tuple(bad))
+        n += 1
+        if sig in seen and not bad:
+            continue
+        seen.add(sig)
+        R.check(not bad, "R-C04-9", "stack@%s" % f.key[-48:], f.loc(), "A, b, G, h are resized unconditionally to the stated counts before the rows are filled", "; ".join(bad[:2]))
+    R.floor("R-C04-9", n, 2, "program::stack instantiations")
+
+
 def run(ctx):
     R = ctx.report
     F = ctx.facts(TUS)
@@ -354,5 +406,6 @@ def run(ctx):
     rule_objective_scale(F, R)
     rule_reduce(F, R)
     rule_rows_before_reduction(F, R)
+    rule_stated_rows(ctx.facts(TUS + ["src/program/benchmark.cpp"]), R)
     rule_guard(F, R)
     rule_kkt(F, R)
